@@ -24,15 +24,23 @@ class lock_handle {
     {
     }
     lock_handle(pointer val, M& mut): data(val), m_handle_lock(mut) {}
-    lock_handle(lock_handle&&) = default;
-    /** move assignment; assigning a handle to itself leaves it untouched
-     * (std::unique_lock releases the mutex on self move assignment, which
-     * would leave a non-null handle that no longer holds the lock)*/
+    /** move constructor: the moved-from handle gives up the lock and becomes
+     * null*/
+    lock_handle(lock_handle&& other) noexcept:
+        data(other.data), m_handle_lock(std::move(other.m_handle_lock))
+    {
+        other.data = nullptr;
+    }
+    /** move assignment: the moved-from handle becomes null; assigning a
+     * handle to itself leaves it untouched (std::unique_lock releases the
+     * mutex on self move assignment, which would leave a non-null handle that
+     * no longer holds the lock)*/
     lock_handle& operator=(lock_handle&& other) noexcept
     {
         if (this != &other) {
             data = other.data;
             m_handle_lock = std::move(other.m_handle_lock);
+            other.data = nullptr;
         }
         return *this;
     }
@@ -190,14 +198,21 @@ class shared_lock_handle {
     shared_lock_handle(pointer val, M& smutex): data(val), m_handle_lock(smutex)
     {
     }
-    shared_lock_handle(shared_lock_handle&&) = default;
-    /** move assignment; assigning a handle to itself leaves it untouched
-     * (see lock_handle)*/
+    /** move constructor: the moved-from handle gives up the lock and becomes
+     * null*/
+    shared_lock_handle(shared_lock_handle&& other) noexcept:
+        data(other.data), m_handle_lock(std::move(other.m_handle_lock))
+    {
+        other.data = nullptr;
+    }
+    /** move assignment: the moved-from handle becomes null; assigning a
+     * handle to itself leaves it untouched (see lock_handle)*/
     shared_lock_handle& operator=(shared_lock_handle&& other) noexcept
     {
         if (this != &other) {
             data = other.data;
             m_handle_lock = std::move(other.m_handle_lock);
+            other.data = nullptr;
         }
         return *this;
     }
